@@ -48,7 +48,7 @@ class C11(Check):
         "registry (plain functions); (client-script) C19's per-attempt outcome words x retry strategies x 0..3 tracers x single / batch / "
         "notification x caller / default trace context; (client-retry) C09's strategies x outcome words x placements; (client-notation) "
         "C07's call plans x notations x id generators through sync-client+sync-dispatcher and async-client+async-dispatcher. Oracle "
-        "(differential): identical response document + codes + execution log + middleware/handler event log; identical wire documents, "
+        "(differential): identical response document + codes + execution log + middleware/handler event log; identical wire documents and transport keyword arguments (client-wide request_args merged with per-call ones), "
         "returned values, exception class / code / message / data, tracer event sequence and sleep sequence. non-trivial as in the source "
         "property of the case (failing element / >= 2 middlewares or handlers / retry happened / >= 2 attempts or tracers / plan with >= 2 "
         "calls, failure or notification); distinct = distinct spec."
@@ -169,6 +169,9 @@ class C11(Check):
             elif placement == 'request-none':
                 kwargs['retry_strategy'] = ch.build_strategy(strategy)
                 send_kw['_retry_strategy'] = None
+        # client-wide transport arguments and per-call ones (the per-call value of a shared key must win, on both halves)
+        kwargs['request_args'] = {'timeout': 5, 'verify': False}
+        send_kw.update({'timeout': 1, 'headers': {'x': 'y'}})
         client = ch.make_client(kind, transport, **kwargs)
         ctx = SimpleNamespace(tag='caller') if spec.get('ctx') == 'caller' else None
         if rkind == 'batch':
@@ -189,10 +192,14 @@ class C11(Check):
             payload = None if e[5] is None else (summarise_exc(e[5]) if isinstance(e[5], BaseException) else summarise_value(e[5]))
             events.append([e[0], e[1], ctx_ids[e[2]], e[3] is ctx if ctx is not None else None, payload])
         return {'sent': [[json.loads(t), n] for t, n in client.sent], 'value': summarise_value(value), 'exc': summarise_exc(exc),
-                'events': events, 'sleeps': list(sleeps)}
+                'events': events, 'sleeps': list(sleeps), 'transport_kwargs': [dict(sorted(k.items())) for k in client.request_kwargs]}
 
     def _compare_clients(self, tag: str, a: Dict[str, Any], b: Dict[str, Any], where: str) -> List[Disc]:
-        for key in ('sent', 'exc', 'value', 'events', 'sleeps'):
+        want = {'headers': {'x': 'y'}, 'timeout': 1, 'verify': False}
+        for half, o in (('sync', a), ('async', b)):
+            if any(k != want for k in o['transport_kwargs']):
+                return [Disc(f"C11/{tag}/transport-arguments/{half}", f"transport got {o['transport_kwargs'][:2]} expected {want} on every attempt | {where}")]
+        for key in ('sent', 'exc', 'value', 'events', 'sleeps', 'transport_kwargs'):
             x, y = a[key], b[key]
             if not ((x is None and y is None) or (x is not None and y is not None and jg.jeq(x, y))):
                 return [Disc(f"C11/{tag}/{key}", f"sync {jg.short(x, 350)} vs async {jg.short(y, 350)} | {where}")]
